@@ -263,16 +263,14 @@ def run(repo, rep, tier):
             for c in [n for n in walk_no_nested(outf) if isinstance(n, ast.Call) and call_name(n) == callee]:
                 a = bind_args(c, f).get(par)
                 rep.check('suppress', '%s receives the advisory notes' % callee, a is not None and unparse(a) == nv, c, '%s called without the advisory notes' % callee)
-        # the skip inside get_algorithm_recommendations precedes the store and covers every action
+        # a suppressed name is left out of every action (del / add / chg): get_algorithm_recommendations interpreted on a map that holds the name under all three
         rep.saw(gar)
-        skips = [n for n in walk_no_nested(gar) if isinstance(n, ast.If) and 'name in algorithm_recommendation_suppress_list' in unparse(n.test) and isinstance(n.body[-1], ast.Continue)]
-        ok = len(skips) == 1
-        if ok:
-            acts = [unparse(t) for t, p, k in path_condition(skips[0]) if k == 'for']
-            ok = any("['del', 'add', 'chg']" in a for a in acts) and 'action' not in unparse(skips[0].test)
-            stores = [n for n in walk_no_nested(gar) if isinstance(n, ast.Call) and isinstance(n.func, ast.Attribute) and n.func.attr == 'append' and 'ret[level][action][alg_type]' in unparse(n.func.value)]
-            ok = ok and len(stores) == 1 and stores[0].lineno > skips[0].lineno and any(t is skips[0].test and p is False for t, p, k in path_condition(stores[0]))
-        rep.check('suppress', 'suppressed names are skipped for every action before a recommendation is stored', ok, skips[0] if skips else gar, 'suppression skip in get_algorithm_recommendations missing or action-specific')
+        from props import _recommend as _R
+        rec = {2: {'enc': {'del': {'sup-a': 10, 'keep-a': 10}, 'add': {'sup-b': 0, 'keep-b': 0}, 'chg': {'sup-c': 1, 'keep-c': 1}}}}
+        got = _R.run_levels(repo, rec, ['sup-a', 'sup-b', 'sup-c'])
+        names = sorted(e.get('name') if isinstance(e, dict) else e for acts in got.values() for cats in acts.values() for lst in cats.values() for e in lst)
+        rep.check('suppress', 'suppressed names are skipped for every action before a recommendation is stored', names == ['keep-a', 'keep-b', 'keep-c'], gar,
+                  'suppression skip in get_algorithm_recommendations missing or action-specific: with sup-a/b/c suppressed the recommendations name %s' % names, stmt='suppression covers every action')
 
     # ---- rule 5: totality on unknown names (by interpretation) --------------------------------------------------------------------------
     # a peer offers, without the strict-kex marker, a CBC-shaped cipher the rating table does not know together with an ETM MAC: the marking step must not raise
